@@ -565,7 +565,12 @@ struct Config
             for (auto& s : vec) s.v.reset();
             std::vector<int> leaked;
             for (auto& b : L.blocks)
-                if (b.live) leaked.push_back(b.serial);
+                if (b.live)
+                {
+                    leaked.push_back(b.serial);
+                    violation(std::string("ledger:block-never-deallocated kind=") + b.kind + " blk=" + std::to_string(b.serial));
+                }
+            if (!hv::Life::get().live.empty()) violation("life:objects-alive-after-teardown n=" + std::to_string(hv::Life::get().live.size()));
             out << "end live_blocks=" << join(leaked) << " live_objects=" << hv::Life::get().live.size() << "\n";
         }
         else
